@@ -161,6 +161,61 @@ def rule_r4(facts, rep, rid="C19-R4"):
             rep.violation(rid, hf.def_ + "|uses-library-path", "%s does not use get_library_path(): read and write side could address different directories" % h, hf.loc)
 
 
+def rule_r5(facts, rep, rid="C19-R5"):
+    """Every directory below the library is visited: the recursion of the loader is decided by `is_dir()` alone.  If the entries are split by the `md`
+    extension first and only the rest is searched for directories, a directory whose own name ends in `.md` is never entered and its notes are never
+    read, normalised or written back."""
+    f = facts.fn("liwe::fs::new_for_path_rec")
+    rep.saw_fn(f)
+    c = ctx(f)
+    from .common import recv_chain, through_lets
+    rec = [x for x in fb.calls_in(f.body) if fb.callee(x) == f.def_]
+    key = f.def_ + "|every-directory-is-entered"
+    if not rec:
+        rep.violation(rid, key, "the loader no longer recurses into sub-directories", f.loc)
+        return
+    probs = []
+    for r in rec:
+        # the sequence the recursive call is mapped over: walk outwards to the enclosing adapter call and down its receiver chain, through lets
+        seq = None
+        for p in c.parents(r):
+            if p.get("k") == "closure":
+                host = c.parent_of.get(id(p))
+                if host is not None and host.get("k") == "mcall":
+                    seq = host.get("recv")
+                break
+        names = []
+        tests = []
+        hops = 0
+        while seq is not None and hops < 30:
+            hops += 1
+            seq = through_lets(c, seq)
+            if seq.get("k") == "mcall":
+                names.append(seq["name"])
+                if seq["name"] in ("filter", "partition", "filter_map", "skip_while", "take_while") and seq.get("args"):
+                    tests.append(seq)
+                seq = seq.get("recv")
+                continue
+            if seq.get("k") == "path" and seq.get("res") == "local":
+                b = c.binds.get(seq["id"])
+                if b and b[0] == "expr" and b[1] is not None:
+                    # a local destructured from `partition(..)`: the partition is a test the sequence went through
+                    seq = b[1]
+                    continue
+            break
+        for t in tests:
+            m = c.mentions(t["args"][0])
+            if any(a[0] == "call" and a[1] and (a[1].endswith("Path::extension") or a[1].endswith("::ends_with") or a[1].endswith("Path::file_name")) for a in m):
+                probs.append("`.%s(..)` on the file extension" % t["name"])
+        if "read_dir" not in names and not any(a[0] == "call" and a[1] and a[1].endswith("fs::read_dir") for a in c.mentions(r)):
+            pass
+    if probs:
+        rep.violation(rid, key, "the directories the loader recurses into have first gone through %s: a sub-directory whose name ends in `.md` is sorted with the notes, dropped there because "
+                      "it is not a file, and never entered - the notes below it are not loaded and `iwe normalize` does not rewrite them" % probs[0], loc(f, rec[0]))
+    else:
+        rep.ok(rid, key, "sub-directories are selected by is_dir() alone", loc(f, rec[0]))
+
+
 def run(facts, rep, tier):
     rep.rule("C19-R1", "= C14-R1/R3: same path in, same path out (one `.md` removed by the reader, one appended by the writer, no repeated trimming).")
     rep.rule("C19-R2", "Atomic replacement: liwe::fs::write_file writes a temporary sibling (not ending in .md) and renames it over the note; it never writes the final path directly.")
@@ -172,3 +227,5 @@ def run(facts, rep, tier):
     rule_r2(facts, rep)
     rule_r3(facts, rep)
     rule_r4(facts, rep)
+    rep.rule("C19-R5", "Every directory below the library is entered: the loader's recursion is decided by is_dir() alone, never by a file-extension test.")
+    rule_r5(facts, rep)
